@@ -2,13 +2,16 @@
    would, and changes nothing).  Nothing but statements; proofs are in proof/ReadOnlyProofs.v.
    The model is model/ReadOnly.v: a data directory = its blocks (any list: any order, overlaps,
    any hints) + the oracle [init] (Head.Init as a function of the cut-off it is given);
-   [oracle_ok init] = Head.MinTime() is a lower bound of the loaded in-order samples.
+   [oracle_ok init] = Head.MinTime() is an int64 and a lower bound of the loaded in-order samples;
+   [tomb_ok init] = no replayed tombstone ending below the loaded in-order minimum covers an
+   out-of-order head sample.
 
    Full statement of the property (for the record; FALSE of the code as it is, see the
    _refuted theorems):
      forall init bs mint maxt sel, oracle_ok init ->
        query (open_ro init bs maxt) mint maxt sel = query (open_rw init bs) mint maxt sel
-     forall init bs sel, flush_content (flush_wal init bs sel) = head_data (init (cutoff bs)) sel *)
+     forall init bs sel maxt, cutoff bs <= maxt ->
+       flush_content (flush_wal init bs sel) = head_data (open_ro init bs maxt) sel *)
 From Coq Require Import List ZArith Lia.
 From Verif Require Import lib.Int64 model.ReadOnly proof.ReadOnlyProofs.
 Import ListNotations.
@@ -16,10 +19,11 @@ Open Scope Z_scope.
 
 (* Same results, for EVERY directory (every list of blocks, every head content) and every query
    whose maxt is not below the cut-off, i.e. whenever the read-only open loads the head at all.
-   _partial: the case maxt < cutoff is missing - it is false, see C53_same_results_refuted. *)
+   _partial: the case maxt < cutoff is missing - it is false, see C53_same_results_refuted; and
+   tomb_ok is assumed - without it the statement is false, see C53_same_results_tomb_refuted. *)
 Theorem C53_same_results_partial :
   forall (init : Z -> hdata) (bs : list blockd) (mint maxt : Z) (sel : list sid),
-    oracle_ok init -> cutoff bs <= maxt ->
+    oracle_ok init -> tomb_ok init -> cutoff bs <= maxt ->
     query (open_ro init bs maxt) mint maxt sel = query (open_rw init bs) mint maxt sel.
 Proof. exact same_results. Qed.
 
@@ -42,6 +46,16 @@ Theorem C53_same_results_refuted :
     query (open_ro init bs maxt) mint maxt sel <> query (open_rw init bs) mint maxt sel.
 Proof. exact same_results_refuted. Qed.
 
+(* finding ro-drops-head-tombstone-below-head-mintime: even where the head is loaded, the
+   read-only open's Head.Init drops (gc: TruncateBefore(Head.MinTime())) a replayed tombstone that
+   ends below the loaded in-order minimum, while tsdb.Open's head (MinTime = cut-off after
+   Head.Truncate) keeps it; a deleted out-of-order sample still sitting in a head chunk file is
+   returned by the read-only querier only. *)
+Theorem C53_same_results_tomb_refuted :
+  exists init bs mint maxt sel, oracle_ok init /\ cutoff bs <= maxt /\
+    query (open_ro init bs maxt) mint maxt sel <> query (open_rw init bs) mint maxt sel.
+Proof. exact same_results_tomb_refuted. Qed.
+
 (* The rule before "fix: tsdb: read-only DB hides WAL samples below an out-of-order block's max
    time" (cut-off = MaxTime of the last block by MinTime) violated the statement even where the
    head is loaded.  100, 200; out-of-order 150; CompactOOOHead; Close (block range 1000). *)
@@ -62,26 +76,26 @@ Proof. intros bs. split; [apply cutoff_sort|apply cutoff_spec]. Qed.
    gives the same cut-off as the opens use, the head holds no out-of-order data and no in-order
    sample below the cut-off; the first two restrictions are findings (next two theorems). *)
 Theorem C53_flush_exact_partial :
-  forall (init : Z -> hdata) (bs : list blockd) (sel : list sid),
-    cutoff_old bs = cutoff bs ->
+  forall (init : Z -> hdata) (bs : list blockd) (sel : list sid) (maxt : Z),
+    cutoff_old bs = cutoff bs -> cutoff bs <= maxt ->
     (forall i, get (h_ooo (init (cutoff bs))) i = []) ->
     (forall i t, In t (get (h_io (init (cutoff bs))) i) ->
          cutoff bs <= t /\ h_min (init (cutoff bs)) <= t <= h_max (init (cutoff bs))) ->
-    flush_content (flush_wal init bs sel) = head_data (init (cutoff bs)) sel.
+    flush_content (flush_wal init bs sel) = head_data (open_ro init bs maxt) sel.
 Proof. exact flush_exact_partial. Qed.
 
 (* finding flushwal-cutoff-from-last-block: FlushWAL still takes the cut-off from the last block,
    whatever its hints.  100, 200; out-of-order 150; CompactOOOHead; Close; FlushWAL writes nothing. *)
 Theorem C53_flush_refuted_old_cutoff :
   exists init bs sel, oracle_ok init /\ (forall i, get (h_ooo (init (cutoff bs))) i = []) /\
-    flush_content (flush_wal init bs sel) <> head_data (init (cutoff bs)) sel.
+    flush_content (flush_wal init bs sel) <> head_data (open_ro init bs maxInt64) sel.
 Proof. exact flush_refuted_old_cutoff. Qed.
 
 (* finding flushwal-omits-out-of-order-head-data: the block is written from the in-order
    RangeHead only.  100, 200, 300; out-of-order 150; Close; the flushed block lacks 150. *)
 Theorem C53_flush_refuted_ooo :
   exists init bs sel, cutoff_old bs = cutoff bs /\
-    flush_content (flush_wal init bs sel) <> head_data (init (cutoff bs)) sel.
+    flush_content (flush_wal init bs sel) <> head_data (open_ro init bs maxInt64) sel.
 Proof. exact flush_refuted_ooo. Qed.
 
 (* The file system trace of a read-only session (MkdirTemp sandbox; hard links of the head chunk
@@ -110,27 +124,31 @@ Proof. exact fs_unchanged. Qed.
 Definition ex_blocks : list blockd :=
   [mkB 0 1000 true [(0, [150; 700])]; mkB (-1000) 0 false [(0, [-900; -5]); (1, [-300])]; mkB 500 2000 true [(1, [1500])]].
 Definition ex_init : Z -> hdata :=
-  fun mv => mkH 100 2600 [(0, [100; 200; 2600]); (1, [2100])] [(1, [40])] 40 40.
+  fun mv => mkH 100 2600 [(0, [100; 200; 2600]); (1, [2100])] [(1, [40])] 40 40 [(0, (160, 250)); (1, (-20, 30))].
 
 Example C53_ex_same_results :
-  oracle_ok ex_init /\ cutoff ex_blocks = 0 /\ cutoff_old ex_blocks = 2000
+  oracle_ok ex_init /\ tomb_ok ex_init /\ cutoff ex_blocks = 0 /\ cutoff_old ex_blocks = 2000
   /\ query (open_ro ex_init ex_blocks 300) (-950) 300 [0; 1]
-     = [(0, [-900; -5; 100; 150; 200]); (1, [-300; 40])]
+     = [(0, [-900; -5; 100; 150]); (1, [-300; 40])]
   /\ query (open_rw ex_init ex_blocks) (-950) 300 [0; 1]
-     = [(0, [-900; -5; 100; 150; 200]); (1, [-300; 40])].
+     = [(0, [-900; -5; 100; 150]); (1, [-300; 40])].
 Proof.
-  split; [|vm_compute; repeat split; reflexivity].
-  intros mv i t. unfold ex_init; cbn [h_io h_min get flat_map fst snd].
-  destruct (0 =? i); destruct (1 =? i); simpl; intuition lia.
+  split; [|split; [|vm_compute; repeat split; reflexivity]].
+  - intros mv. split; [vm_compute; discriminate|].
+    intros i t. unfold ex_init; cbn [h_io h_min get flat_map fst snd].
+    destruct (0 =? i); destruct (1 =? i); simpl; intuition lia.
+  - intros mv i a b t Hin Hb Ht Hc. unfold ex_init in *; cbn [h_tomb h_min h_ooo] in *.
+    simpl in Hin. destruct Hin as [E|[E|[]]]; inversion E; subst; [lia|].
+    simpl in Ht. destruct Ht as [<-|[]]. lia.
 Qed.
 
 (* hypotheses of C53_flush_exact_partial hold in a non-trivial state *)
 Definition ex2_blocks : list blockd := [mkB 0 1000 false [(0, [100; 900])]].
-Definition ex2_init : Z -> hdata := fun mv => mkH 1200 1800 [(0, [1200; 1800])] [] maxInt64 minInt64.
+Definition ex2_init : Z -> hdata := fun mv => mkH 1200 1800 [(0, [1200; 1800])] [] maxInt64 minInt64 [].
 Example C53_ex_flush :
   cutoff_old ex2_blocks = cutoff ex2_blocks
   /\ flush_wal ex2_init ex2_blocks [0] = Some (1200, 1801, [(0, [1200; 1800])])
-  /\ head_data (ex2_init (cutoff ex2_blocks)) [0] = [(0, [1200; 1800])].
+  /\ head_data (open_ro ex2_init ex2_blocks 5000) [0] = [(0, [1200; 1800])].
 Proof. vm_compute. repeat split; reflexivity. Qed.
 
 (* a session on a tree with two head chunk files, sandbox inside the data directory (2 = the
